@@ -33,6 +33,12 @@ def pack_uint(v, n):
         return int(v).to_bytes(n, 'big')
     if v.bsrc is not None and len(v.bsrc) <= n:
         return SBuf.mk([Lit([0] * (n - len(v.bsrc)) + list(v.bsrc))])
+    from .engine import bv_of
+    bv = bv_of(v)
+    if bv is not None and bv.size() <= 8 * n:
+        # octets of a bit-vector backed value are extracted in bit-vector theory
+        wide = z3.ZeroExt(8 * n - bv.size(), bv) if bv.size() < 8 * n else bv
+        return SBuf.mk([Lit([SInt(z3.BV2Int(z3.simplify(z3.Extract(8 * i + 7, 8 * i, wide)))) for i in reversed(range(n))])])
     items = []
     for i in reversed(range(n)):
         e = z3.simplify((v.e / (256 ** i)) % 256)
@@ -57,6 +63,10 @@ def unpack_uint(items):
                 break
         if ok:
             return mk_int(v)
+    from .engine import bv_of
+    bvs = [bv_of(it) if isinstance(it, SInt) else z3.BitVecVal(int(it), 8) for it in items]
+    if items and all(b is not None and b.size() == 8 for b in bvs) and any(isinstance(it, SInt) for it in items):
+        return SInt(z3.BV2Int(z3.simplify(z3.Concat(*bvs) if len(bvs) > 1 else bvs[0])), bsrc=tuple(items))
     r = 0
     for it in items:
         r = r * 256 + it
@@ -77,8 +87,11 @@ def pack(fmt, *vals):
             if not isinstance(v, SInt):
                 v = mk_int(_z(v))
         if is_sym(v):
-            if not bool((v >= 0) & (v < 256 ** sz)):
-                raise error('argument out of range')
+            from .engine import bv_of
+            b = bv_of(v)
+            if not (b is not None and b.size() <= 8 * sz):      # a w-bit vector is in range by construction
+                if not bool((v >= 0) & (v < 256 ** sz)):
+                    raise error('argument out of range')
             out = out + pack_uint(v, sz)
         else:
             out = out + _struct.pack('>' + {1: 'B', 2: 'H', 4: 'I', 8: 'Q'}[sz], v)
